@@ -98,6 +98,7 @@ static void print_item(struct sb* s, const cbor_item_t* it, int* all_rc1, int de
 }
 
 /* filled: every definite container has size == allocated (C02) */
+void hist_print_item(const cbor_item_t* it, char** out) { struct sb s = {0}; print_item(&s, it, NULL, 0); *out = s.p; }
 static int all_filled(const cbor_item_t* it) {
   if (!it) return 1;
   switch (it->type) {
